@@ -462,6 +462,46 @@ func (fc *FnCtx) execSlice(fr *Frame, st *State, x *ssa.Slice) Val {
 	base := fc.value(fr, st, x.X)
 	// slicing a local array (varargs)
 	if pv, ok := base.(*PtrVal); ok && pv.Kind == PCell {
+		constBound := func(v ssa.Value, def int) (int, bool) {
+			if v == nil {
+				return def, true
+			}
+			if c, ok := v.(*ssa.Const); ok {
+				if i, ok := constInt(c); ok {
+					return int(i), true
+				}
+			}
+			return 0, false
+		}
+		if av0, ok := st.cells[pv.Cell].(*ArrVal); ok {
+			lo, lok := constBound(x.Low, 0)
+			hi, hok := constBound(x.High, len(av0.Elems))
+			if lok && hok && 0 <= lo && lo <= hi && hi <= len(av0.Elems) && x.Max == nil && !(x.Low == nil && x.High == nil) {
+				// make([]T, n, m) with constant sizes: new [m]T sliced [:n]
+				st2, isSlice := unalias(x.Type()).Underlying().(*types.Slice)
+				es := ""
+				if isSlice {
+					es = sortOf(st2.Elem())
+				}
+				allTerms := isSlice
+				for _, e := range av0.Elems {
+					if t, ok := e.(Term); !ok || t.Sort != es {
+						allTerms = false
+					}
+				}
+				if allTerms {
+					hn := elemHeapName(es)
+					h := fc.heapRaw(st, hn, arrSort(SInt, arrSort(SInt, es)))
+					arr := fc.allocRef(st)
+					content := tSelect(h, arr)
+					for i, e := range av0.Elems {
+						content = tStore(content, intLit(int64(i)), e.(Term))
+					}
+					fc.setHeap(st, hn, tStore(h, arr, content))
+					return fc.nameTerm("lit", mkSlice(arr, intLit(int64(lo)), intLit(int64(hi-lo)), intLit(int64(len(av0.Elems)-lo))))
+				}
+			}
+		}
 		if av, ok := st.cells[pv.Cell].(*ArrVal); ok && x.Low == nil && x.High == nil {
 			st2, isSlice := unalias(x.Type()).Underlying().(*types.Slice)
 			if !isSlice {
@@ -561,10 +601,32 @@ func (fc *FnCtx) execMakeInterface(fr *Frame, st *State, x *ssa.MakeInterface) V
 		fc.assumeNoSentinel(st, e)
 		return e
 	}
-	if isTypeParam(x.X.Type()) || sortOf(x.X.Type()) != SInt || true {
-		return &AnyVal{V: v, GT: x.X.Type()}
+	// a pointer to a repo struct boxed into a non-empty, non-error interface (e.g. the oneof wrapper of a
+	// protobuf message): the interface value is the reference itself, its dynamic type is dynType(ref)
+	if n, ok := isStructPtr(x.X.Type()); ok && n.Obj().Pkg() != nil && isRepoPkg(n.Obj().Pkg()) {
+		if it, ok := unalias(x.Type()).Underlying().(*types.Interface); ok && !it.Empty() {
+			if vt, ok := v.(Term); ok {
+				return vt
+			}
+		}
 	}
-	return v
+	return &AnyVal{V: v, GT: x.X.Type()}
+}
+
+// dynamic type tags of locally allocated repo structs (for type switches on interface values)
+var dynTypeIDs = map[string]int{}
+
+func dynTypeID(n *types.Named) int {
+	key := n.Obj().Name()
+	if n.Obj().Pkg() != nil {
+		key = n.Obj().Pkg().Path() + "." + key
+	}
+	id, ok := dynTypeIDs[key]
+	if !ok {
+		id = len(dynTypeIDs) + 1
+		dynTypeIDs[key] = id
+	}
+	return id
 }
 
 // boxErrStruct models `error(ptr)` for a known error struct type.
@@ -653,6 +715,24 @@ func (fc *FnCtx) execTypeAssert(fr *Frame, st *State, x *ssa.TypeAssert) Val {
 			return &TupleVal{Elems: []Val{res, tTrue}}
 		}
 		return res
+	}
+	// interface value represented by a reference, asserted to a pointer to a repo struct
+	if vt, ok := v.(Term); ok && vt.Sort == SInt {
+		if n, ok := isStructPtr(x.AssertedType); ok && n.Obj().Pkg() != nil && isRepoPkg(n.Obj().Pkg()) {
+			if _, isIface := unalias(x.X.Type()).Underlying().(*types.Interface); isIface {
+				fc.decls.fun("dynType", []string{SInt}, SInt)
+				okc := fc.nameTerm("isT", tAnd(tNot(tEq(vt, intLit(0))), tEq(app(SInt, "dynType", vt), intLit(int64(dynTypeID(n))))))
+				if x.CommaOk {
+					return &TupleVal{Elems: []Val{tIte(okc, vt, intLit(0)), okc}}
+				}
+				ps := st.clone()
+				ps.pc = tAnd(st.pc, tNot(okc))
+				ps.why = "type assertion without comma-ok at " + fc.posOf(x.Pos())
+				fr.panics = append(fr.panics, ps)
+				st.pc = fc.nameTerm("pc_ta", tAnd(st.pc, okc))
+				return vt
+			}
+		}
 	}
 	if it, ok := unalias(x.AssertedType).Underlying().(*types.Interface); ok && it.Empty() && !x.CommaOk {
 		// conversion of a (type-parameter) value to `any`: cannot fail for non-nil operands
